@@ -23,11 +23,22 @@ ENGINES = [
                        'a cell bound, deviation-bounded neighbourhoods of scales, wide embeddings) '
                        'on the real Context/Lattice, compared with reference model R1 '
                        '(mc/refmodel.py)'},
+    {'name': 'E1h-callhist', 'path': 'mc/hist2.py',
+     'serves_properties': ['C02', 'C03', 'C05', 'C06', 'C07', 'C08', 'C09', 'C10', 'C16', 'C18',
+                           'C20'],
+     'kind_free_text': 'bounded exhaustive exploration of call histories on one freshly built '
+                       'Context/Lattice object: every ordered pair of calls of the property\'s '
+                       'query family (all arguments over the table), and every foreign call '
+                       'followed by the whole family in both orders, on every table up to 9 cells '
+                       'with a non-chain lattice; differential oracle (answer after a history == '
+                       'answer as the only call on a fresh object, which E1 compares with R1)'},
     {'name': 'E2-histspace', 'path': 'mc/explore.py',
      'serves_properties': ['C13', 'C14', 'C17'],
      'kind_free_text': 'explicit-state breadth-first search over the real Definition transition '
                        'functions with state hashing, run to fixpoint over a bounded name universe, '
-                       'against the ordered-table model R2 (mc/tablemodel.py)'},
+                       'against the ordered-table model R2 (mc/tablemodel.py); read-only calls '
+                       '(derivations, texts, handed-out containers) are transitions too, so hidden '
+                       'caches become distinct states that the search expands'},
     {'name': 'E3-envspace', 'path': 'mc/env.py',
      'serves_properties': ['C11', 'C12', 'C17', 'C19'],
      'kind_free_text': 'exhaustive enumeration of environment answers and configurations: all '
